@@ -669,23 +669,31 @@ Fixpoint ty_of (x : node) {struct x} : tyref :=
 
 Definition dmember : Type := @member tyref.
 
+(* the type a property denotes, given the (sanitised) name of the schema it belongs to: an inline object property is
+   promoted to the schema <Parent><Prop> and the property refers to it *)
+Definition ty_of_prop (parent : option str) (key : str) (x : node) : tyref :=
+  match x with
+  | Obj _ _ => match parent_truthy parent with Some p => TRef (p ++ cls key) | None => ty_of x end
+  | _ => ty_of x
+  end.
+
 Fixpoint decl_members (rec : node -> option dmember) (l : list node) (acc : list dmember) : option dmember :=
   match l with
   | [] => Some (merge_props (rev acc), merge_req [] (rev acc))
   | x :: r => match rec x with Some m => decl_members rec r (m :: acc) | None => None end
   end.
 
-Fixpoint decl_node (fuel : nat) (S : spec) (nd : node) {struct fuel} : option dmember :=
+Fixpoint decl_node (fuel : nat) (S : spec) (parent : option str) (nd : node) {struct fuel} : option dmember :=
   match fuel with
   | O => None
   | Datatypes.S f =>
     match nd with
-    | Obj ps rq => Some (merge_into [] (map (fun kv => (fst kv, ty_of (snd kv))) ps), rq)
+    | Obj ps rq => Some (merge_into [] (map (fun kv => (fst kv, ty_of_prop parent (fst kv) (snd kv))) ps), rq)
     | Ref m => match alookup m S with
-               | Some nd' => decl_node f S nd'
+               | Some nd' => decl_node f S (Some m) nd'
                | None => Some ([], [])
                end
-    | AllOf l => decl_members (decl_node f S) l []
+    | AllOf l => decl_members (decl_node f S None) l []
     | _ => Some ([], [])
     end
   end.
@@ -695,7 +703,7 @@ Definition fields_of_member (m : dmember) : list field :=
 
 Definition declared_f (fuel : nat) (S : spec) (n : str) : option (list field) :=
   match alookup n S with
-  | Some nd => option_map fields_of_member (decl_node fuel S nd)
+  | Some nd => option_map fields_of_member (decl_node fuel S (Some n) nd)
   | None => None
   end.
 Definition declared (S : spec) (n : str) : option (list field) := declared_f (2 * length S + 2) S n.
